@@ -26,10 +26,23 @@ const maxOffset = 1 << 40
 // offset and returns the reader, the specification's own CRLF-normalised
 // copy of the content, the base offset and a position inside the file.
 func setup(maxLen int) (r *text.Reader, data []byte, o int, c int) {
-	n := rt.Choose("len", maxLen+1)
+	long := rt.Param("long", 0)
+	n := long
+	if long == 0 {
+		n = rt.Choose("len", maxLen+1)
+	}
 	raw := make([]byte, n)
 	for i := range raw {
-		raw[i] = rt.Byte("in")
+		switch {
+		case long == 0 || i == long/4 || i == long/2 || i == long/2+1 || i == long-1:
+			raw[i] = rt.Byte("in")
+		case i < long/2:
+			// first half: a run of spaces and tabs
+			raw[i] = " \t"[i%5/4]
+		default:
+			// second half: a run of lower-case letters
+			raw[i] = 'a' + byte(i%26)
+		}
 	}
 	// the specification's normalisation: every CR LF pair becomes LF
 	for i := 0; i < len(raw); i++ {
@@ -45,7 +58,16 @@ func setup(maxLen int) (r *text.Reader, data []byte, o int, c int) {
 	o = rt.IntRange("offset", 1, maxOffset)
 	f.SetOffset(o)
 	r = text.NewReader(f)
-	c = rt.Choose("cursor", len(data)+1)
+	if long > 0 {
+		rt.Cover("long content")
+		cs := []int{0, 1, long/2 - 1, long / 2, len(data) - 2, len(data)}
+		c = cs[rt.Choose("cursor", len(cs))]
+		if c > len(data) || c < 0 {
+			c = len(data)
+		}
+	} else {
+		c = rt.Choose("cursor", len(data)+1)
+	}
 	if f.Len() != len(data) {
 		rt.Fail("normalised-length", "File.Len differs from the CRLF-normalised length")
 	}
@@ -141,6 +163,11 @@ func C09_MatchString() {
 	r, data, o, c := setup(rt.Param("L", 4))
 	k := 1 + rt.Choose("arglen", rt.Param("A", 3))
 	str := symString("arg", k, false)
+	if al := rt.Param("AL", 0); al > 0 && c+al <= len(data) {
+		// a long argument: the content itself followed by the symbolic bytes
+		str = string(data[c:c+al]) + str
+		k += al
+	}
 	np, found := r.MatchString(pos(o, c), str)
 	want := hasPrefixAt(data, c, []byte(str))
 	if want {
